@@ -60,6 +60,7 @@ void harness(void)
 		COVER(nd_ref > 1);
 		POST(verif_closed_calls == 0, "closed is only invoked if created was");
 		POST(verif_tdisc_calls == (nd_ref == 1 ? 2 : 1), "an incomplete connection's transport is torn down");
+		POST(verif_tdisc_first_state == QB_IPCS_CONNECTION_ACTIVE, "the transport of an incomplete connection is torn down while the connection still says what was created for it (state ACTIVE): the transport releases by state (unit ipc.teardown)");
 		dropped = 1;
 		if (nd_ref > 1) {
 			POST(c->state == QB_IPCS_CONNECTION_INACTIVE, "an incomplete connection becomes INACTIVE");
@@ -81,6 +82,7 @@ void harness(void)
 		}
 		if (nd_state == QB_IPCS_CONNECTION_ESTABLISHED) {
 			POST(verif_tdisc_calls >= 1, "an established connection's transport is torn down");
+			POST(verif_tdisc_first_state == QB_IPCS_CONNECTION_ESTABLISHED, "an established connection's transport is first torn down in state ESTABLISHED (setup socket), the rest at the last unref");
 		}
 		POST(verif_rmtmp_calls >= 1, "the per-connection directory is removed");
 	}
